@@ -5,6 +5,7 @@ package sm2
 import (
 	"bufio"
 	"bytes"
+	crand "crypto/rand"
 	"errors"
 	"fmt"
 	"io"
@@ -34,13 +35,15 @@ type scriptReader struct {
 	failWithData bool  // deliver the last bytes and the error in the same call
 	transient    bool  // the failure is reported once; later calls deliver the rest of the data
 	repeat       int   // transient only: the failure is reported this many times in a row first (0 = once)
+	stallAt      int   // absolute byte offset at which the source stalls: stallCount reads return (0, nil) there (-1 = never)
+	stallCount   int
 	calls        int
 	events       []rdEvent
 	failed       bool
 	readsAfter   int // Read calls made after the failure was reported
 }
 
-func newScript(data []byte) *scriptReader { return &scriptReader{data: data, failAt: -1} }
+func newScript(data []byte) *scriptReader { return &scriptReader{data: data, failAt: -1, stallAt: -1} }
 
 func (s *scriptReader) Read(p []byte) (int, error) {
 	s.calls++
@@ -52,6 +55,13 @@ func (s *scriptReader) Read(p []byte) (int, error) {
 		}
 		s.events = append(s.events, rdEvent{Req: len(p), N: 0, Err: e.Error()})
 		return 0, e
+	}
+	if s.stallAt >= 0 && s.off == s.stallAt && s.stallCount > 0 && len(p) > 0 {
+		s.stallCount--
+		if len(s.events) < 64 {
+			s.events = append(s.events, rdEvent{Req: len(p), N: 0})
+		}
+		return 0, nil
 	}
 	if s.zeroEvery > 0 && s.calls%s.zeroEvery == 0 && len(p) > 0 {
 		s.events = append(s.events, rdEvent{Req: len(p), N: 0})
@@ -392,4 +402,47 @@ func montgomeryPatternScalars(rng *hk.RNG, count int) []*big.Int {
 		mk([4]uint64{alpha[rng.Intn(len(alpha))], alpha[rng.Intn(len(alpha))], alpha[rng.Intn(len(alpha))], alpha[rng.Intn(len(alpha))] >> 1})
 	}
 	return out
+}
+
+// zeroRunReader delivers `zeros` zero bytes (each 32-byte unit is the rejected candidate 0) and then tail,
+// without holding the run in memory: runs of 2^24 and more rejected candidates.
+type zeroRunReader struct {
+	zeros int64
+	tail  []byte
+	read  int64
+}
+
+func (z *zeroRunReader) Read(p []byte) (int, error) {
+	n := 0
+	if z.zeros > 0 {
+		n = len(p)
+		if int64(n) > z.zeros {
+			n = int(z.zeros)
+		}
+		for i := 0; i < n; i++ {
+			p[i] = 0
+		}
+		z.zeros -= int64(n)
+	} else {
+		if len(z.tail) == 0 {
+			return 0, io.EOF
+		}
+		n = copy(p, z.tail)
+		z.tail = z.tail[n:]
+	}
+	z.read += int64(n)
+	return n, nil
+}
+
+var globalRandMu sync.Mutex
+
+// withGlobalRand replaces the process-wide crypto/rand.Reader by rd for the duration of f and hands f that
+// very global object: a library may recognise it by identity and treat it differently from other sources.
+// Sequential sections only.
+func withGlobalRand(rd io.Reader, f func(src io.Reader)) {
+	globalRandMu.Lock()
+	saved := crand.Reader
+	crand.Reader = rd
+	defer func() { crand.Reader = saved; globalRandMu.Unlock() }()
+	f(crand.Reader)
 }
